@@ -19,7 +19,7 @@ LEVEL_NOTE = ("Trusted: seam completeness for the dynamically linked binary; the
 RULE = ("case = one generated project; twin run records operations; plans = fail/torn on each scratch OPEN_W / WRITE / RENAME "
         "(single), pairs of them, and persistent class faults (every rename out of TMPDIR fails EXDEV; every create in TMPDIR "
         "fails; disk full from operation k). Non-trivial = the planned fault fired; distinct = (world, plan).")
-PROBES = ["exdev_rename", "no_scratch", "multi_fault", "disk_full_from", "error_surfaced_before_rename", "post_rename_write_failed"]
+PROBES = ["real_missing_tmpdir", "exdev_rename", "no_scratch", "multi_fault", "disk_full_from", "error_surfaced_before_rename", "post_rename_write_failed"]
 ASSUMPTIONS = ["an injected failure is final for that call (no hidden retry by the seam)",
                "the follow-up --check runs fault-free on the tree the faulted run left"]
 DEADLINE = {"quick": 200, "thorough": 3000}
@@ -108,8 +108,10 @@ def evaluate(wm, knobs, plan, ctx, twin=None, label=None):
             raise core.HarnessError("run timed out in C08")
         K = len(twin["res"].ops)
         phm = scen.phases(twin["res"].ops)
-        f0 = plan["faults"][0]
-        if f0.get("k"):
+        f0 = plan["faults"][0] if plan["faults"] else {"kinds": ["none"], "act": "none"}
+        if label:
+            phase = label
+        elif f0.get("k"):
             phase = scen.phase_of(phm, f0["k"], K)
         else:
             phase = "class:%s" % "+".join(f0.get("kinds", []))
@@ -122,7 +124,7 @@ def evaluate(wm, knobs, plan, ctx, twin=None, label=None):
         for s in states.values():
             ctx.states[s] += 1
         digest = hashlib.sha256((res.trace_digest() + core.digest_world(run["after"])).encode()).hexdigest()
-        scenario = {"wm": world.wm_to_json(wm), "knobs": knobs, "plan": plan}
+        scenario = {"wm": world.wm_to_json(wm), "knobs": knobs, "plan": plan, "label": label}
         viols = []
         if res.mode != "exited":
             # not this property's business (no kills or signals are injected here)
@@ -178,6 +180,14 @@ def run_case(rng, idx, tier, ctx):
         ctx.samples.append({"files": {p: len(world.segs_bytes(s)) for p, s in wm["files"].items()},
                             "twin_ops": [o.short() for o in ops][:50], "plans": [p for _n, p in plans[:4]]})
     viols = []
+    if rng.random() < 0.5:
+        # the real thing instead of an injected fault: TMPDIR points to a directory that does not exist
+        k2 = dict(knobs)
+        k2["tmpdir"] = "no_such_tmpdir"
+        vs, _f = evaluate(wm, k2, base, ctx, twin, label="missing-tmpdir")
+        ctx.probes["real_missing_tmpdir"] += 1
+        ctx.nontrivial.add("%d.realtmp" % idx)
+        viols += vs
     for n, (name, plan) in enumerate(plans):
         vs, fired = evaluate(wm, knobs, plan, ctx, twin)
         if fired:
@@ -205,7 +215,7 @@ def run_case(rng, idx, tier, ctx):
 
 def replay(scenario, ctx):
     wm = world.wm_from_json(scenario["wm"])
-    vs, _ = evaluate(wm, scenario["knobs"], scenario["plan"], ctx)
+    vs, _ = evaluate(wm, scenario["knobs"], scenario["plan"], ctx, label=scenario.get("label"))
     return vs
 
 
